@@ -13,6 +13,8 @@ package main
 // differs := the comparison was made and said "not equal".
 
 //@ func formatBytes
+// (ghost variables updated at the call sites of this function; everything else it may write is not framed)
+//@ modifies heap, evCompare, evFileWrite, evPrint, evStdoutWrite, lastBufBytes, lastEqual, lstatMode, lstatOK, lstatPath, wrData, wrPath, wrPerm
 //@ noauto
 //@ props C35 C36
 //@ nosafety
